@@ -1287,3 +1287,24 @@ SEEDS["C02_kwonly_kind_dropped"] = ("C02", [(D, """        elif p.kind == inspec
 """, "")], "C02.3")
 SEEDS["C02_impl_wrong_output_value"] = ("C02", [(D, "                    kwargs[output_name] = out\n", "                    kwargs[output_name] = bound\n")], "C02.2")
 TWINS["C02_twin_noop"] = ("C02", [(D, "            param_signature = full_signature.replace(return_annotation=Any)", "            param_signature = full_signature.replace(return_annotation=Any)  # parameters only")])
+SEEDS["C03_memoised_dtype_name"] = ("C03", [(A, """def _dtype_is_numpy_struct_array(dtype):""", """@ft.lru_cache(maxsize=None)
+def _dtype_is_numpy_struct_array(dtype):""")], "C03.5")
+SEEDS["C20_loader_interns_by_merged_fields"] = ("C20", [(A, "        return x.dtype.__getitem__, (x._getitem_args,)", "        return _unpickle_array_annotation, (x.dtype, x._getitem_args)"), (A, "def _pickle_array_annotation(x", """_unpickled = {}
+
+
+def _unpickle_array_annotation(dtype, item):
+    out = dtype[item]
+    return _unpickled.setdefault((out.dtype, out.array_type, out.dim_str), out)
+
+
+def _pickle_array_annotation(x""")], "C20.3")
+SEEDS["C20_category_by_name"] = ("C20", [(A, "        return x.dtype.__getitem__, (x._getitem_args,)", "        return _unpickle_array_annotation, (x.dtype.__name__, x._getitem_args)"), (A, "def _pickle_array_annotation(x", """def _unpickle_array_annotation(dtype, item):
+    return globals()[dtype][item]
+
+
+def _pickle_array_annotation(x""")], "C20.3")
+TWINS["C20_twin_pure_loader"] = ("C20", [(A, "        return x.dtype.__getitem__, (x._getitem_args,)", "        return _unpickle_array_annotation, (x.dtype, x._getitem_args)"), (A, "def _pickle_array_annotation(x", """def _unpickle_array_annotation(dtype, item):
+    return dtype[item]
+
+
+def _pickle_array_annotation(x""")])
